@@ -129,6 +129,15 @@ Theorem C08_printed_time : forall ns, ns < 1440000000000 -> ok_cell ns (fmt_time
 Proof. exact fmt_time_ok. Qed.
 Print Assumptions C08_printed_time.
 
+(* What `uftrace report` prints, for every --avg-total/--avg-self mode, every -s key list and every -f field
+   selection (report_keys / report_fields): rows in key order, every printed cell denotes the node's figure -
+   the stdout checker applied to the implementation on every run accepts the model's stdout (figures < 24 min). *)
+Theorem C08_stdout_checker_accepts_model : forall m s f c, small_figures (report c) ->
+  ok_stdout (report_keys m s f) (report_fields m f) (report c)
+            (stdout_model (report_keys m s f) (report_fields m f) (report c)) = true.
+Proof. exact (fun m s f c H => stdout_checker_accepts_model _ _ (report c) (report_names_sorted c) H). Qed.
+Print Assumptions C08_stdout_checker_accepts_model.
+
 (* From 24 minutes on it is not: __print_time_unit divides minutes by 24 (35 min is printed "1.011 h"). *)
 Theorem C08_printed_time_hours_refuted :
   let ns := 35 * 60 * 1000000000 in fmt_time ns = Some (1, 11, 4) /\ ok_cell ns (fmt_time ns) = false.
